@@ -343,7 +343,79 @@ def r13_5(repo: Repo) -> RuleResult:
     return rr
 
 
-RULES = [r13_1, r13_2, r13_3, r13_4, r13_5]
+_MUTATORS = {"append", "extend", "add", "update", "setdefault", "pop", "clear", "insert", "remove", "popitem", "discard"}
+
+
+def r13_6(repo: Repo) -> RuleResult:
+    """Module-level containers are state that outlives every call.  A function on a fit / transform path that writes
+    into one (a memo table, a registry filled on the fly) makes what a call returns depend on the calls made before it
+    in the same process - e.g. a cache keyed by only some of the arguments hands a later fit the object built for an
+    earlier one."""
+    from ..model import walk_no_nested
+
+    rr = RuleResult("R13.6", "no function on a fit / transform path writes into a module-level container (process-wide state)", floor=20)
+    seen: Set[int] = set()
+    for c in exported_estimators(repo):
+        for entry in ("fit", "fit_transform", "transform"):
+            for f in repo.reachable_from(c, entry):
+                if id(f) in seen:
+                    continue
+                seen.add(id(f))
+                # module-level names bound to a container display / constructor
+                glob = {k for k, v in f.module.constants.items()
+                        if isinstance(v, (ast.Dict, ast.List, ast.Set)) or (isinstance(v, ast.Call) and norm(v.func) in ("dict", "list", "set", "defaultdict", "collections.defaultdict", "OrderedDict"))}
+                local = set(f.params)
+                for n in walk_no_nested(f.node):
+                    if isinstance(n, ast.Assign):
+                        for t in n.targets:
+                            if isinstance(t, ast.Name):
+                                local.add(t.id)
+                p = f.parent
+                while p is not None:
+                    local |= set(p.params)
+                    p = p.parent
+                writes = []
+                for n in walk_no_nested(f.node):
+                    tgt = None
+                    if isinstance(n, (ast.Assign, ast.AugAssign)):
+                        for t in (n.targets if isinstance(n, ast.Assign) else [n.target]):
+                            if isinstance(t, ast.Subscript) and isinstance(t.value, ast.Name):
+                                tgt = t.value.id
+                    elif isinstance(n, ast.Call) and isinstance(n.func, ast.Attribute) and n.func.attr in _MUTATORS and isinstance(n.func.value, ast.Name):
+                        tgt = n.func.value.id
+                    elif isinstance(n, ast.Global):
+                        for nm in n.names:
+                            writes.append((nm, n))
+                    if tgt is not None and tgt in glob and tgt not in local:
+                        writes.append((tgt, n))
+                # a memo table whose key names every parameter the cached value depends on is behaviour-preserving
+                kept = []
+                for nm, n in writes:
+                    tgt_sub = None
+                    if isinstance(n, ast.Assign) and isinstance(n.targets[0], ast.Subscript) and isinstance(n.targets[0].value, ast.Name):
+                        tgt_sub = n.targets[0]
+                    if tgt_sub is not None:
+                        key_names = {x.id for x in ast.walk(tgt_sub.slice) if isinstance(x, ast.Name)}
+                        deps = {x.id for x in ast.walk(n.value) if isinstance(x, ast.Name) and x.id in f.params}
+                        if isinstance(n.value, ast.Name):
+                            for d in ast.walk(f.node):
+                                if isinstance(d, (ast.FunctionDef, ast.Lambda)) and getattr(d, "name", None) == n.value.id:
+                                    deps |= {x.id for x in ast.walk(d) if isinstance(x, ast.Name) and x.id in f.params}
+                        if deps and deps <= key_names:
+                            rr.ok(f, "module-level `%s`" % nm, "memo table keyed by every parameter the cached value depends on (%s)" % sorted(deps), n.lineno)
+                            continue
+                    kept.append((nm, n))
+                writes = kept
+                if writes:
+                    for nm, n in writes:
+                        rr.bad(f, "module-level `%s`" % nm, "`%s` writes into the module-level container `%s`: the value survives the call, so a later fit / "
+                               "transform in the same process can be handed what an earlier one left there" % (short(n, 50), nm), n.lineno)
+                else:
+                    rr.ok(f, "module-level state", "no write to a module-level container", f.node.lineno, nontrivial=False)
+    return rr
+
+
+RULES = [r13_1, r13_2, r13_3, r13_4, r13_5, r13_6]
 CLAIM = (
     "R13.1 alias + effect analysis (flow-sensitive abstract interpretation over each CFG, call summaries to a fixed point): no "
     "fit / fit_transform / transform / __add__ / exported function may mutate, directly or through any callee, one of its "
@@ -351,7 +423,8 @@ CLAIM = (
     "transform (read before written in a call and written or mutated on the transform path) outside a reviewed, re-validated "
     "table; R13.3 every mkdtemp/mkstemp is released by a try/finally or context manager; R13.4 every RNG consumer on the fit "
     "path of an estimator with random_state is seeded from self.random_state; R13.5 every attribute updated in place on a fit path is "
-    "re-initialised by a plain assignment on every path before the update (CFG must-pass-through)."
+    "re-initialised by a plain assignment on every path before the update (CFG must-pass-through); R13.6 no function on a fit / transform path "
+    "writes into a module-level container (memo tables and the like are process-wide state)."
 )
 NOT_DECIDED = "bit-level reproducibility of parallel sums; effects of unresolved external calls (assumed pure; the library mutators the repository uses are tabled)."
 ASSUMPTIONS = [
